@@ -339,6 +339,8 @@ Definition holds (max_paths : nat) (who : accessor) (c0 : config) (sw : list (na
               then served_sound c0 sw who (rq_op rq) timed 0 None outs
                    && match rq_items rq with
                       | [it] => if is_wildcard (it_path it)
+                                   && (is_read (rq_op rq)
+                                       || (is_some (p_cl (it_path it)) && is_some (p_leaf (it_path it))))
                                    && shape_stable (map cf_node (c0 :: map snd sw))
                                 then no_repeat outs
                                      && complete_throughout c0 sw who (rq_op rq) timed it outs
